@@ -98,3 +98,20 @@ Theorem C08_losses_as_in_source :
   REMOVEPARAM_ON_WIRE = false /\ REMOVEPARAM_RESTORED_EMPTY = true /\ SCRIPT_PERMISSION_RESTORED_DEFAULT = true.
 Proof. exact losses_as_in_source. Qed.
 Print Assumptions C08_losses_as_in_source.
+
+(* One query kind end to end on the model: hidden_class_id_selectors (modelled from
+   cosmetic_filter_cache.rs and tied to Engine::hidden_class_id_selectors by the correspondence
+   run) returns on the reloaded engine exactly the list it returned on the original; F8/F9 do not
+   affect this query. *)
+Theorem C08_class_id_query_equiv : forall a b classes ids exc, cosmetic_equiv a b ->
+  NoDup (map fst (c_complex_class a)) -> NoDup (map fst (c_complex_id a)) ->
+  hidden_class_id_selectors a classes ids exc = hidden_class_id_selectors b classes ids exc.
+Proof. exact class_id_query_equiv. Qed.
+Print Assumptions C08_class_id_query_equiv.
+
+Theorem C08_class_id_query_roundtrip : forall as_css b c classes ids exc,
+  hostdb_wf (c_specific c) -> NoDup (map fst (c_complex_class c)) -> NoDup (map fst (c_complex_id c)) ->
+  hidden_class_id_selectors (from_wire_cosmetic (to_wire as_css b c)) classes ids exc =
+  hidden_class_id_selectors c classes ids exc.
+Proof. exact class_id_query_roundtrip. Qed.
+Print Assumptions C08_class_id_query_roundtrip.
